@@ -151,6 +151,7 @@ func (x *ChanPubSub[C, V]) SubscribeContext(ctx context.Context) iter.Seq[V] {
 				if !ok {
 					return
 				}
+				verifPoint("pubsub.iter.recv", x, 0)
 
 				x.Wait()
 
@@ -178,12 +179,16 @@ func (x *ChanPubSub[C, V]) Send(value V) (sent int) {
 	// for sanity of the ping-pong communication pattern
 	x.sendMu.Lock()
 	defer x.sendMu.Unlock()
+	verifPoint("pubsub.send.sendmu", x, 0)
+	defer verifPoint("pubsub.send.done", x, 0)
 
 	// N.B. released after sending (after pings, before waiting for pongs)
 	x.sendingMu.Lock()
+	verifPoint("pubsub.send.sending", x, 0)
 	var skipSendingUnlock bool
 	defer func() {
 		if !skipSendingUnlock {
+			verifPoint("pubsub.send.unsending", x, 1)
 			x.sendingMu.Unlock()
 		}
 	}()
@@ -192,7 +197,9 @@ func (x *ChanPubSub[C, V]) Send(value V) (sent int) {
 
 	// we need to know the subscribers, so we can add to x.ping
 	// synchronisation is important here, so INCREMENTS are mutually exclusive
+	verifPoint("pubsub.atomic.begin", x, 0)
 	subscribers := int(x.subscribers.Load())
+	verifPoint("pubsub.send.subs", x, subscribers)
 	if subscribers == 0 {
 		return 0 // no subscribers (slow path)
 	}
@@ -215,6 +222,7 @@ func (x *ChanPubSub[C, V]) Send(value V) (sent int) {
 	sent = x.ping.Send(value) // N.B. supports concurrent decrements
 
 	skipSendingUnlock = true
+	verifPoint("pubsub.send.unsending", x, 0)
 	x.sendingMu.Unlock() // we can add subscribers while waiting for pongs
 
 	// pong! (await appropriate number of calls to Wait)
@@ -225,6 +233,7 @@ func (x *ChanPubSub[C, V]) Send(value V) (sent int) {
 		x.checkBroken() // AFTER lock (broken state is only broadcast once)
 
 		x.pongN = sent
+		verifPoint("pubsub.send.pong", x, sent)
 		x.pongC.Broadcast() // wake up any blocking Wait calls
 
 		// wait for our pongs to be consumed
@@ -232,6 +241,7 @@ func (x *ChanPubSub[C, V]) Send(value V) (sent int) {
 			x.pongC.Wait()
 			x.checkBroken() // ALWAYS checkBroken after a wait
 		}
+		verifPoint("pubsub.send.ponged", x, 0)
 	}
 
 	success = true
@@ -292,13 +302,18 @@ func (x *ChanPubSub[C, V]) Add(delta int) (subscribers int) {
 		//
 		// ... rather complex, yes.
 		ok := x.sendingMu.TryRLock()
+		verifPoint("pubsub.unsub.try", x, b2i(ok))
 		// N.B. this loop is to handle state transition (send in progress)
 		for !ok && x.ping.Add(0) == 0 {
 			x.checkBroken() // attempts to mitigate deadlock risk on misuse...
 			ok = x.sendingMu.TryRLock()
+			verifPoint("pubsub.unsub.try", x, b2i(ok))
 		}
+		verifPoint("pubsub.atomic.begin", x, 0)
 		subscribers = x.addSubscribers(delta)
+		verifPoint("pubsub.unsub.subs", x, subscribers)
 		if ok {
+			verifPoint("pubsub.unsub.runlock", x, 0)
 			x.sendingMu.RUnlock() // unlock, before possible panics
 		}
 		x.sanityCheckSubscribersDelta(subscribers, delta)
@@ -320,7 +335,11 @@ func (x *ChanPubSub[C, V]) Add(delta int) (subscribers int) {
 		// concurrently with other attempts to subscribe.
 		x.sendingMu.RLock()
 		defer x.sendingMu.RUnlock()
+		verifPoint("pubsub.sub.rlocked", x, delta)
+		defer verifPoint("pubsub.sub.runlock", x, 0)
+		verifPoint("pubsub.atomic.begin", x, 0)
 		subscribers = x.addSubscribers(delta)
+		verifPoint("pubsub.sub.subs", x, subscribers)
 		x.sanityCheckSubscribersDelta(subscribers, delta)
 	}
 
@@ -346,6 +365,7 @@ func (x *ChanPubSub[C, V]) Wait() {
 	}
 
 	x.pongN-- // consume a pong
+	verifPoint("pubsub.wait.consumed", x, x.pongN)
 
 	if x.pongN == 0 {
 		x.pongC.Broadcast() // wake up Send call
